@@ -4,6 +4,9 @@
 pub open spec fn rec_ne(p: Seq<u8>, off: int) -> int { name_end(p, off).unwrap() }
 pub open spec fn rec_ok(p: Seq<u8>, off: int) -> bool {
     name_end(p, off) matches Some(ne) && ne + 10 <= p.len() && ne + 10 + be16(p, ne + 8) <= p.len()
+    && (be16(p, ne) == 1 ==> be16(p, ne + 8) == 4)          // A: the address accessors read 4 bytes
+    && (be16(p, ne) == 28 ==> be16(p, ne + 8) == 16)        // AAAA: 16 bytes
+    && (be16(p, ne) == 41 ==> ne == off + 1)                // OPT: root owner name
 }
 pub open spec fn rec_end(p: Seq<u8>, off: int) -> int { rec_ne(p, off) + 10 + be16(p, rec_ne(p, off) + 8) }
 pub open spec fn sec_end(p: Seq<u8>, off: int, n: int) -> int decreases n { if n <= 0 { off } else { sec_end(p, rec_end(p, off), n - 1) } }
@@ -106,4 +109,84 @@ impl ParsedPacket {
             && (self.cached matches Some(c) ==> be16(p, 4) == 1 && c.0@ == name_exp(p, 12) && c.1 == be16(p, name_end(p, 12).unwrap()) && c.2 == be16(p, name_end(p, 12).unwrap() + 2))
         })
     }
+}
+
+// facts about the OPT record found by opt_at among n well-formed records
+pub proof fn lemma_opt_at_facts(p: Seq<u8>, off: int, n: int)
+    requires recs_all(p, off, n), 0 <= off <= p.len()
+    ensures opt_at(p, off, n) matches Some(o) ==> (off + 1 <= o && o + 10 + be16(p, o + 8) <= p.len() && p[o - 1] == 0 && n_opt(p, off, n) >= 1),
+        opt_at(p, off, n) is None ==> n_opt(p, off, n) == 0,
+    decreases n
+{
+    if n > 0 {
+        lemma_rec_bounds(p, off);
+        lemma_n_opt_nonneg(p, rec_end(p, off), n - 1);
+        if is_opt(p, off) {
+            // root owner: name_end(p, off) == off + 1 means p[off] is the root label
+            lemma_root_name(p, off);
+        } else { lemma_opt_at_facts(p, rec_end(p, off), n - 1); }
+    }
+}
+pub proof fn lemma_root_name(p: Seq<u8>, off: int)
+    requires name_end(p, off) == Some(off + 1)
+    ensures p[off] == 0
+{
+    let b = p[off];
+    if b & 0xc0 == 0xc0 {
+        let t = ptr_target(b, p[off + 1]);
+        lemma_walk_bounds(p, t, off, t, 15, 0, Some(off + 2));
+    } else if b != 0 {
+        lemma_walk_bounds(p, off + b + 1, p.len() as int, off, 16, b + 1, None);
+    }
+}
+// without an OPT record in the section the first record is not one
+pub proof fn lemma_n_opt_first(p: Seq<u8>, off: int, n: int)
+    requires n_opt(p, off, n) == 0, n > 0
+    ensures !is_opt(p, off)
+{ lemma_n_opt_nonneg(p, rec_end(p, off), n - 1); }
+
+// ---- from the validator's acceptance to the reader-level invariant (C03: "for every packet the parser accepts")
+pub proof fn lemma_rrs_opt(p: Seq<u8>, off: int, n: int, sec: SecT, opt: Option<int>)
+    requires rrs(p, off, n, sec, opt).is_some()
+    ensures rrs(p, off, n, sec, opt).unwrap().1 == (match opt_at(p, off, n) { Some(o) => Some(o), None => opt }),
+        opt_at(p, off, n) matches Some(o) ==> opts(p, o + 10, o + 10 + be16(p, o + 8)).is_some(),
+    decreases n
+{
+    if n > 0 {
+        lemma_rr_spec_rec(p, off, sec, opt.is_some());
+        let r = rr_spec(p, off, sec, opt.is_some()).unwrap();
+        lemma_rrs_recs(p, r.0, n - 1, sec, if r.1 { Some(off + 1) } else { opt });
+        lemma_rrs_opt(p, r.0, n - 1, sec, if r.1 { Some(off + 1) } else { opt });
+        if r.1 {
+            // a second OPT is impossible, so the rest of the run has none
+            lemma_n_opt_nonneg(p, r.0, n - 1);
+            lemma_opt_at_none(p, r.0, n - 1);
+        }
+    }
+}
+pub proof fn lemma_opt_at_none(p: Seq<u8>, off: int, n: int)
+    requires n_opt(p, off, n) == 0
+    ensures opt_at(p, off, n) is None
+    decreases n
+{ if n > 0 { lemma_n_opt_nonneg(p, rec_end(p, off), n - 1); lemma_opt_at_none(p, rec_end(p, off), n - 1); } }
+
+pub proof fn lemma_parse_wf(pp: ParsedPacket, v: Vec<u8>)
+    requires parse_spec(v@) matches Some(s) && pp.packet == Some(v) && pp_matches(pp, v@, s)
+    ensures pp.wf()
+{
+    let p = v@;
+    let qne = name_end(p, 12).unwrap();
+    let o1 = qne + 4; let an = be16(p, 6) as int; let ns = be16(p, 8) as int; let ar = be16(p, 10) as int;
+    lemma_name_end_bounds(p, 12);
+    lemma_rrs_recs(p, o1, an, SecT::Answer, None);
+    lemma_rrs_opt(p, o1, an, SecT::Answer, None);
+    let r1 = rrs(p, o1, an, SecT::Answer, None).unwrap();
+    lemma_rrs_recs(p, r1.0, ns, SecT::NameServers, r1.1);
+    lemma_rrs_opt(p, r1.0, ns, SecT::NameServers, r1.1);
+    let r2 = rrs(p, r1.0, ns, SecT::NameServers, r1.1).unwrap();
+    lemma_rrs_recs(p, r2.0, ar, SecT::Additional, r2.1);
+    lemma_rrs_opt(p, r2.0, ar, SecT::Additional, r2.1);
+    lemma_opt_at_none(p, o1, an);
+    lemma_opt_at_none(p, r1.0, ns);
+    axiom_vec_len(&v);
 }
